@@ -26,7 +26,7 @@ CONF_L = {"preset": "commonmark", "options": {"maxNesting": 100}}
 def floors(tier):
     q = tier == "quick"
     return {"law.quote": 40000 if q else 1000000, "law.item": 40000 if q else 1000000, "depth.4plus": 2000, "marker_width.5plus": 1000,
-            "D.lazy": 500, "D.definitions": 1000, "D.html_block": 500, "D.blank_in_verbatim": 300, "hr_exclusions": 5, "D.battery": 5000}
+            "D.lazy": 500, "D.definitions": 1000, "D.html_block": 500, "D.blank_in_verbatim": 300, "hr_exclusions": 5, "D.battery": 5000, "item.lazy_direction_checked": 30000}
 
 
 def quote(D):
@@ -71,6 +71,45 @@ def norm_env(env):
         else:
             out[k] = v
     return out
+
+
+def lazy_consistent(orig, wrapped, width):
+    """the allowance is one-sided: a continuation line may KEEP up to `width` more leading spaces in the list form, never fewer"""
+    if orig == wrapped:
+        return True
+    lo, lw = orig.split("\n"), wrapped.split("\n")
+    if len(lo) != len(lw) or lo[0] != lw[0]:
+        return False
+    for x, y in zip(lo[1:], lw[1:]):
+        if x.lstrip(" ") != y.lstrip(" "):
+            return False
+        extra = (len(y) - len(y.lstrip(" "))) - (len(x) - len(x.lstrip(" ")))
+        if not 0 <= extra <= width:
+            return False
+    return True
+
+
+def lazy_direction(a, b, width, path=""):
+    """a, b: raw dumps (plain form, list form) already known to agree after norm_lazy; returns a message if some string differs
+    in the direction the statement does not allow"""
+    if isinstance(a, str) and isinstance(b, str):
+        if not lazy_consistent(a, b, width):
+            return f"{path}: {a!r} (plain) vs {b!r} (in item of width {width})"
+        return None
+    if isinstance(a, dict) and isinstance(b, dict):
+        if a.get("type") == "code_inline":
+            return None
+        for k in a:
+            if k in b:
+                r = lazy_direction(a[k], b[k], width, f"{path}.{k}")
+                if r:
+                    return r
+    elif isinstance(a, (list, tuple)) and isinstance(b, (list, tuple)):
+        for i, (x, y) in enumerate(zip(a, b)):
+            r = lazy_direction(x, y, width, f"{path}[{i}]")
+            if r:
+                return r
+    return None
 
 
 def dump(toks, dlevel=0, lazy=False):
@@ -124,6 +163,12 @@ def item_law(md, M, X, ctx=None):
         return "item:contents-differ", d
     if norm_env(e1) != norm_env(e2):
         return "item:env-differs", f"{e1!r} vs {e2!r}"[:300]
+    r = lazy_direction(dump(t1, 0, False), dump(t2[2:-2], 2, False), len(M)) or lazy_direction(
+        {k: v for k, v in e1.items() if k in ("references", "duplicate_refs")}, {k: v for k, v in e2.items() if k in ("references", "duplicate_refs")}, len(M), "env")
+    if ctx is not None:
+        ctx.count("item.lazy_direction_checked")
+    if r:
+        return "item:continuation-line-lost-spaces", r
     return None
 
 
@@ -215,9 +260,14 @@ def run(ctx):
 
     # containers whose last line holds an unfinished construct, DIRECTLY followed (no blank line) by a context-sensitive line
     bases = ["> [foo]:", "> [foo]: /u", "> a", "> ```", "> - x", "> # h", ">     code", "> > > a", "> > b", "- a", "- [r]:", "1. x", "> <div>", "> |a|b|\n> |-|-|",
-             "> t\n> ===", "- > q", "> 1. o", "- - n", ">", "-", "> [r]: /u\n> 'ti", "```\nf", "<div>", "|a|b|\n|-|-|", "para", "# h"]
+             "> t\n> ===", "- > q", "> 1. o", "- - n", ">", "-", "> [r]: /u\n> 'ti", "```\nf", "<div>", "|a|b|\n|-|-|", "para", "# h",
+             "[foo]:", "[foo]: /u", "[foo]: /u\n'ti", "[foo]:\n/u", "[foo]: /u 'a", "[foo]: /u \"first\n    second", "[a\n  b]:", "[foo]: <u", "t", "`c", "*e", "[l](/u\n  'ti", "<b",
+             "> [foo]: /u \"first\n>     second",
+             # a backslash at the end of the line inside a destination (escaped line ending)
+             ">[r]:\\", "[r]:\\", "> [r]: <a\\", "[l](\\", "> [l](/u\\", "> [r]: /u\\", "- [r]:\\", "> [r]:\n> \\"]
     adjs = ["***", "---", "-", "<div>", "- b", ">     - b", ">  c", "    code", "'title'", "\"t\" rest", "===", "2. y", "> d", "lazy", "  lazy2", "# h", "```", "|c|d|",
-            "[x]: /y", "1) z", ">     code", ">> e", "      six", "+", "* * *", "/dest", "<u v>", "(paren) x", "-|-"]
+            "[x]: /y", "1) z", ">     code", ">> e", "      six", "+", "* * *", "/dest", "<u v>", "(paren) x", "-|-",
+            "x)", "b>", "x", "1.", ">x", "  ***", " - b", "   > q", " ```", "  <div>", "   # h", "    third\"", "  t'", " 1.", "~~~", "   ---"]
     battery = [b + "\n" + a + "\n" for b in bases for a in adjs]
 
     def gen_D():
